@@ -64,22 +64,25 @@ template <unsigned CAP> static void runBitArray(const std::vector<Op>& ops) {
 	}
 }
 
-// ---- StaticArrayT<int, CAP> / DynamicArrayT<int, CAP> ----
-template <long CAP> static void runStatic(const std::vector<Op>& ops) {
-	StaticArrayT<int, CAP> a;
-	auto dump = [&]() { out += " items="; for (long i = 0; i < CAP; ++i) { if (i) out += ","; out += std::to_string(a[i]); } out += " count=" + std::to_string(int(a.count())); };
+// ---- StaticArrayT<int, CAP> / StaticArrayT<uint8_t, CAP> / DynamicArrayT<int, CAP> ----
+// ("sa8": one-byte items, the only item type for which the filler value used by clear() and empty() is not T{}: filler<Short>() is 255)
+template <typename TItem, long CAP> static void runStaticT(const std::vector<Op>& ops) {
+	StaticArrayT<TItem, CAP> a;
+	auto dump = [&]() { out += " items="; for (long i = 0; i < CAP; ++i) { if (i) out += ","; out += std::to_string(int(a[i])); } out += " count=" + std::to_string(int(a.count())); };
 	out += "init"; dump(); out += "\n";
 	for (auto& o : ops) {
 		out += o.name; for (long x : o.args) out += " " + std::to_string(x);
-		if (o.name == "set") a[o.args[0]] = int(o.args[1]);
-		else if (o.name == "get") out += " ->" + std::to_string(a[o.args[0]]);
-		else if (o.name == "fill") a.fill(int(o.args[0]));
+		if (o.name == "set") a[o.args[0]] = TItem(o.args[1]);
+		else if (o.name == "get") out += " ->" + std::to_string(int(a[o.args[0]]));
+		else if (o.name == "fill") a.fill(TItem(o.args[0]));
 		else if (o.name == "clear") a.clear();
-		else if (o.name == "ctorfill") { a.~StaticArrayT(); new (&a) StaticArrayT<int, CAP>{int(o.args[0])}; }      // the filling constructor
-		else if (o.name == "isempty") out += a.empty() ? " ->1" : " ->0";                                           // every item equals the filler value
+		else if (o.name == "ctorfill") { a.~StaticArrayT(); new (&a) StaticArrayT<TItem, CAP>{TItem(o.args[0])}; }      // the filling constructor
+		else if (o.name == "isempty") out += a.empty() ? " ->1" : " ->0";                                              // every item equals the filler value
 		dump(); out += "\n";
 	}
 }
+template <long CAP> static void runStatic(const std::vector<Op>& ops) { runStaticT<int, CAP>(ops); }
+template <long CAP> static void runStatic8(const std::vector<Op>& ops) { runStaticT<uint8_t, CAP>(ops); }
 // an item whose move constructor really empties its source, and that counts what happens to it: a lost forward<>/move slip in
 // emplace or operator+= shows as a gutted element (-777) instead of going unnoticed as it does with int
 struct Tk {
@@ -97,7 +100,8 @@ template <long CAP> static void runDynamic(const std::vector<Op>& ops) {
 		out += " iter="; bool f = true; for (const Tk& x : a) { if (!f) out += ","; f = false; out += std::to_string(x.v); }
 		// the same through the mutable iterator, cbegin()/cend() and operator-> : all must agree
 		std::string viaMut, viaC; f = true; for (Tk& x : a) { if (!f) viaMut += ","; f = false; viaMut += std::to_string(x.v); }
-		f = true; { auto it = a.cbegin(); auto e = a.cend(); for (; it != e; ++it) { if (!f) viaC += ","; f = false; viaC += std::to_string(it->v); } }
+		f = true; { auto it = a.cbegin(); auto e = a.cend(); long k = 0; for (; it != e; ++it, ++k) { if (!f) viaC += ","; f = false; viaC += std::to_string(it->v);
+			if (&*it != &static_cast<const decltype(a)&>(a)[k]) viaC += "@COPY"; } }      // the iterator designates the array's own element
 		std::string viaConst; f = true; for (const Tk& x : a) { if (!f) viaConst += ","; f = false; viaConst += std::to_string(x.v); }
 		if (viaMut != viaConst || viaC != viaConst) out += " ITERATORS-DISAGREE[" + viaMut + "|" + viaC + "]";
 		out += " count=" + std::to_string(int(a.count())) + (a.empty() ? " empty=1" : " empty=0"); };
@@ -196,7 +200,7 @@ int main() {
 #define BA(C) else if (kind == "ba" && cap == C) runBitArray<C>(ops);
 		CAPS(BA)
 		BIGCAPS(BA)
-#define SA(C) else if (kind == "sa" && cap == C) runStatic<C>(ops);
+#define SA(C) else if (kind == "sa" && cap == C) runStatic<C>(ops); else if (kind == "sa8" && cap == C) runStatic8<C>(ops);
 		CAPS(SA)
 #define DA(C) else if (kind == "da" && cap == C) runDynamic<C>(ops);
 		CAPS(DA)
